@@ -14,6 +14,7 @@ mod obs;
 mod oracle;
 mod optrace;
 mod output;
+mod pipeline;
 mod states;
 mod suites;
 
@@ -84,6 +85,7 @@ fn cmd_opt(m: &HashMap<String, String>) {
                 "real" => suites::real_suite(&mut rng, 14 * scale / chunks.max(1) * 2, if thorough { 400 } else { 250 }),
                 "edited" => suites::edited_suite(&mut rng, 7 * scale / chunks.max(1) * 2, 100, false),
                 "saveload" => suites::saveload_suite(&mut rng, 14 * scale / chunks.max(1) * 2),
+                "special" => suites::special_suite(&mut rng, 20 * scale / chunks.max(1) * 2),
                 "oor" => suites::edited_suite(&mut rng, 7 * scale / chunks.max(1) * 2, 100, true),
                 _ => vec![],
             };
@@ -125,6 +127,12 @@ fn main() {
         ),
         "svg" => output::svg(m.get("in").expect("--in"), m.get("out").expect("--out")),
         "json-random" => output::json_random(
+            m.get("out").expect("--out"),
+            m.get("tier").map(|t| t == "thorough").unwrap_or(false),
+            m.get("seed").and_then(|s| s.parse().ok()).unwrap_or(1),
+        ),
+        "cli-inspect" => pipeline::cli_inspect(&m),
+        "pool-runs" => pipeline::pool_runs(
             m.get("out").expect("--out"),
             m.get("tier").map(|t| t == "thorough").unwrap_or(false),
             m.get("seed").and_then(|s| s.parse().ok()).unwrap_or(1),
